@@ -82,8 +82,8 @@ MemoConflicts(pairs) ==
 
 FamilyProps(fam) ==
     CASE fam = "obj" -> {"C09", "C17", "C19", "C14"}
-      [] fam = "lin" -> {"C20", "C13", "C06", "C08"}
-      [] fam = "bil" -> {"C20", "C13", "C06", "C08"}
+      [] fam = "lin" -> {"C20", "C13", "C06", "C08", "C19"}
+      [] fam = "bil" -> {"C20", "C13", "C06", "C08", "C19"}
       [] fam = "spl" -> {"C13", "C06", "C08"}
       [] fam = "out" -> {"C17", "C09"}
       [] fam = "err" -> {"C19"}
